@@ -8,9 +8,14 @@ Grammar of the helpers (recognised by their bodies, names are free):
                         def P(f): return lambda x: f(**x) if isinstance(x, dict) else x
   list converter        def L(f): [def apply ... | apply = P(f)] ; def conv(x): return list(map(apply, x)) | [apply(e) for e in x]
                                   | [P(f)(e) for e in x] | [f(**e) if isinstance(e, dict) else e for e in x] ; return conv   (or return lambda x: ...)
-  keyword dispatch      def D(**info): [if info is None: return None]  T = {"k": Class, ...}  [key = info["kind"]]  c = T.get(info["kind"] | key)
+  keyword dispatch      def D(**info): [if info is None: return None]  [T = {"k": Class, ...}]  [key = info["kind"]]  c = T.get(info["kind"] | key)
                                   if c / c is not None: return c(**info) [else:] raise ..   |   if not c / c is None: raise .. ; return c(**info)
-  positional dispatch   def D(info): if info["kind"] == "k": return C(**info) ... ; return Default(**info)
+                                  | c = T[info["kind"] | key] ; return c(**info)   |   return T[info["kind"] | key](**info)
+                        T is the local dict literal or a module-level CLASS TABLE (see "class tables" below)
+  positional dispatch   def D(info): { t = info["kind"] == "k" | c = <class expr> | if <test>: return <class expr>(**info) } ; return <class expr>(**info)
+                        <test> := info["kind"] == "k" | t      <class expr> := Class | c | <class expr> if <test> else <class expr>
+                        read as the function  value of info["kind"] -> class  it computes (see "decision trees" below)
+  no-op validator       def V(instance, attribute, value): return <constant> | isinstance(value, Class | (Class, ...) | tuple(T.values()))
 create_lsp_model and the __eq__ methods are normalised first (see "constant tables, unrolled" below, with the soundness argument):
   NAME = ("a", ...) at module level, bound once  ->  `for x in NAME` unrolled, all(E for x in NAME) -> and-chain, getattr(o, "a") -> o.a
 A `converter=` that is none of: P(target), L(target), lambda x: C(**x), the uuid lambda, a positional dispatch function - is rejected
@@ -258,6 +263,197 @@ def normalise(fn, consts, allb, used):
     return ast.fix_missing_locations(new)
 
 
+# ------------------------------------------------------------------------------------------------ class tables
+# Grammar extension:  NAME = {"k1": Class1, "k2": Class2, ...}   (or NAME: <annotation> = {...})   at module level    (a class table)
+# read inside functions as      NAME[e]        NAME.get(e)        tuple(NAME.values())
+# stands for the same dict literal written at the place of the read (the form `lut = {...}` local to the dispatch function that the
+# grammar had from the start), and tuple(NAME.values()) for the tuple (Class1, Class2, ...).
+# Soundness - NAME denotes, at every read, a dict with exactly these keys bound to exactly these class objects, in this order:
+#  * it is bound EXACTLY ONCE in the whole module (bound_names: every binding construct counts, parameters and locals of every function
+#    included; a star-import disables the extension), so no function shadows or re-binds it;
+#  * a dict is mutable, so EVERY occurrence of NAME in the module other than its binding must be one of the three read forms above
+#    (a subscript in Load context - not a store or del -, a one-argument .get call, a no-argument .values() call that is the sole argument of
+#    tuple(...)): the dict object is never stored, passed on, iterated lazily or updated, so nothing in the module can change it, and
+#    tuple(...) copies the view at once;
+#  * every read sits inside a function body, and the module-level grammar of translate() admits no call of a module function while the
+#    module body runs (only imports, classes whose bodies are attrs.field(...) declarations, defs and upper-case constants without calls;
+#    the converter factories called inside attrs.field(...) build closures and do not call their argument), so a read happens only after the
+#    module body - and with it the binding of NAME - is complete, wherever the table is written relative to the functions that use it;
+#  * the values are names of classes of this module whose `class` statement PRECEDES the table (otherwise the import raises NameError), and a
+#    class name is bound once (translate() rejects a class defined twice; bound_names must count it once), so the table holds the objects
+#    that `Class1`, ... denote when a function runs - the decorated classes, since `@attrs.define class C` binds C after decoration;
+#  * keys are distinct string literals (a duplicate is rejected, as for the local literal).
+#  Re-binding or mutation from OUTSIDE the module is covered like every other fact read from the AST: crosscheck() compares the imported
+#  module's value (type dict, key order, `is` identity of each value with the module attribute of that name, which must be a class of
+#  this module) with the literal; `tuple` must not be bound in the module (checked on the AST and on the imported module).
+# A read in any other form leaves NAME unrecognised: the function that uses it is then REJECTED by the grammar downstream.
+def class_tables(tree, classes, allb):
+    """-> {NAME: [(key, class name), ...]} for the module-level class tables that satisfy the conditions above"""
+    if "*" in allb:
+        return {}
+    parent = {}
+    for n in ast.walk(tree):
+        for c in ast.iter_child_nodes(n):
+            parent[id(c)] = n
+    class_pos = {n.name: i for i, n in enumerate(tree.body) if isinstance(n, ast.ClassDef)}
+    out = {}
+    for pos, n in enumerate(tree.body):
+        if isinstance(n, ast.Assign) and len(n.targets) == 1:
+            tgt, val = n.targets[0], n.value
+        elif isinstance(n, ast.AnnAssign) and n.value is not None:
+            tgt, val = n.target, n.value
+        else:
+            continue
+        if not (is_name(tgt) and isinstance(val, ast.Dict) and val.keys and allb.count(tgt.id) == 1):
+            continue
+        rows = []
+        for k, v in zip(val.keys, val.values):
+            if not (isinstance(k, ast.Constant) and isinstance(k.value, str) and is_name(v) and v.id in classes and allb.count(v.id) == 1
+                    and class_pos[v.id] < pos):
+                rows = None
+                break
+            rows.append((k.value, v.id))
+        if rows is None or len({k for k, _ in rows}) != len(rows):
+            continue
+        ok = True
+        for x in ast.walk(tree):
+            if not (isinstance(x, ast.Name) and x.id == tgt.id) or x is tgt:
+                continue
+            p = parent.get(id(x))
+            pp = parent.get(id(p)) if p is not None else None
+            ppp = parent.get(id(pp)) if pp is not None else None
+            form = None
+            if isinstance(x.ctx, ast.Load):
+                if isinstance(p, ast.Subscript) and p.value is x and isinstance(p.ctx, ast.Load):
+                    form = "index"
+                elif (isinstance(p, ast.Attribute) and p.attr == "get" and isinstance(pp, ast.Call) and pp.func is p and len(pp.args) == 1
+                      and not pp.keywords and not isinstance(pp.args[0], ast.Starred)):
+                    form = "get"
+                elif (isinstance(p, ast.Attribute) and p.attr == "values" and isinstance(pp, ast.Call) and pp.func is p and not pp.args and not pp.keywords
+                      and isinstance(ppp, ast.Call) and is_name(ppp.func, "tuple") and ppp.args == [pp] and not ppp.keywords and "tuple" not in allb):
+                    form = "values"
+            inside, a = False, x
+            while id(a) in parent:        # in the BODY of a def (a default value or a decorator is evaluated while the module body runs)
+                a, child = parent[id(a)], a
+                if isinstance(a, (ast.FunctionDef, ast.AsyncFunctionDef)) and any(child is st for st in a.body):
+                    inside = True
+            if form is None or not inside:
+                ok = False
+                break
+        if ok:
+            out[tgt.id] = rows
+    return out
+
+
+def table_values(e, ctabs, used):
+    """tuple(NAME.values()) for a class table NAME -> NAME, else None"""
+    if (isinstance(e, ast.Call) and is_name(e.func, "tuple") and len(e.args) == 1 and not e.keywords and isinstance(e.args[0], ast.Call)
+            and isinstance(e.args[0].func, ast.Attribute) and e.args[0].func.attr == "values" and not e.args[0].args and not e.args[0].keywords
+            and is_name(e.args[0].func.value) and e.args[0].func.value.id in ctabs):
+        used["class_tables"].add(e.args[0].func.value.id)
+        used["builtins"].add("tuple")
+        return e.args[0].func.value.id
+    return None
+
+
+# ------------------------------------------------------------------------------------------------ decision trees (positional dispatch)
+# Grammar extension: the body of a one-parameter dispatch function D(info) is a block
+#     t = info[KEY] == "k"            a test bound to a local            c = <class expr>       a class expression bound to a local
+#     if <test>: return <class expr>(**info)   [else: <block>]           return <class expr>(**info)
+#     <test> := info[KEY] == "k" | t           <class expr> := Class | c | <class expr> if <test> else <class expr>
+# (before: only `if info[KEY] == "k": return C(**info)` statements and a final `return Default(**info)`).  It is executed SYMBOLICALLY to a
+# decision tree (test, subtree-if-true, subtree-if-false) with class leaves, and the tree is turned into the table the Coq model takes: for
+# each constant k that occurs, the class the tree yields when info[KEY] == k, and the class it yields for any other value (the default).
+# Soundness:
+#  * locals: a bound name is assigned exactly once in the function (bound_names), is not the parameter, a class or a module function, and is
+#    only read after its assignment in straight-line order (a read of a name that is not bound yet is rejected), so substituting the bound
+#    expression for the name is the function's meaning provided the expression is pure - it is: a class name is a load of a module global that
+#    is bound once, a conditional expression evaluates its test and then ONE operand, and a test is `info[KEY] == "k"`;
+#  * tests: every test of the function reads the SAME key.  If info has no such key, the first test that is evaluated raises KeyError; at
+#    least one test is evaluated on every path before any class is called (the root of the tree must be a test, and bound tests are evaluated
+#    even earlier), and nothing but pure expressions precedes it: the function raises KeyError and has done nothing else, which is what the
+#    model's dispatch does on a missing key.  If the key is present every test is total (a dict subscript of a present key and `==` against
+#    a str constant; a bound test that a path does not use was evaluated without effect), so eager evaluation of bound tests and the lazy
+#    evaluation of the tree agree, and the function calls exactly one class, once, with **info: the leaf the tree selects;
+#  * a name bound inside a branch of an `if` is visible in that branch only (the branch always returns, so the code after the `if` runs
+#    only when the branch was not entered); a block that can fall off its end (implicit `return None`) is rejected.
+def decision_tree(fn, info, classes, funs):
+    """-> (key, cases, default) of the one-parameter function fn, whose returns all have the form <class expr>(**info)"""
+    local = bound_names(fn)
+    keys, consts = [], []
+
+    def test_of(e, env):
+        if (isinstance(e, ast.Compare) and len(e.ops) == 1 and isinstance(e.ops[0], ast.Eq) and isinstance(e.left, ast.Subscript)
+                and is_name(e.left.value, info) and isinstance(e.left.slice, ast.Constant) and isinstance(e.left.slice.value, str)
+                and isinstance(e.comparators[0], ast.Constant) and isinstance(e.comparators[0].value, str)):
+            keys.append(e.left.slice.value)
+            if e.comparators[0].value not in consts:
+                consts.append(e.comparators[0].value)
+            return e.comparators[0].value
+        if is_name(e) and env.get(e.id, (None,))[0] == "test":
+            return env[e.id][1]
+        return None
+
+    def tree_of(e, env):
+        if is_name(e) and e.id in classes and e.id not in local:
+            return ("leaf", e.id)
+        if is_name(e) and env.get(e.id, (None,))[0] == "tree":
+            return env[e.id][1]
+        if isinstance(e, ast.IfExp):
+            t, a, b = test_of(e.test, env), tree_of(e.body, env), tree_of(e.orelse, env)
+            if t is not None and a and b:
+                return ("if", t, a, b)
+        return None
+
+    def ret_tree(st, env):
+        v = st.value
+        if (isinstance(v, ast.Call) and not v.args and len(v.keywords) == 1 and v.keywords[0].arg is None and is_name(v.keywords[0].value, info)):
+            return tree_of(v.func, env)
+        return None
+
+    def block(stmts, env):
+        if not stmts:
+            raise Reject("dispatch function %s can fall off its end" % fn.name)
+        st, rest = stmts[0], stmts[1:]
+        if isinstance(st, ast.Return):
+            t = ret_tree(st, env)
+            if t is None or rest:
+                raise Reject("dispatch function %s outside grammar: %s" % (fn.name, U(st)))
+            return t
+        if isinstance(st, ast.Assign) and len(st.targets) == 1 and is_name(st.targets[0]):
+            x = st.targets[0].id
+            if x == info or x in classes or x in funs or x in env or local.count(x) != 1:
+                raise Reject("dispatch function %s: local %s is not a single-assignment name" % (fn.name, x))
+            t = test_of(st.value, env)
+            if t is not None:
+                return block(rest, dict(env, **{x: ("test", t)}))
+            c = tree_of(st.value, env)
+            if c is not None:
+                return block(rest, dict(env, **{x: ("tree", c)}))
+            raise Reject("dispatch function %s outside grammar: %s" % (fn.name, U(st)))
+        if isinstance(st, ast.If):
+            t = test_of(st.test, env)
+            if t is None or (st.orelse and rest):
+                raise Reject("dispatch function %s outside grammar: %s" % (fn.name, U(st)[:100]))
+            return ("if", t, block(st.body, env), block(st.orelse or rest, env))
+        raise Reject("dispatch function %s outside grammar: %s" % (fn.name, U(st)[:100]))
+
+    tree = block(strip_doc(fn.body), {})
+    if not keys or tree[0] != "if":
+        raise Reject("function %s: no dispatch key" % fn.name)
+    if len(set(keys)) != 1:
+        raise Reject("dispatch function %s tests more than one key: %s" % (fn.name, sorted(set(keys))))
+
+    def value(t, k):
+        while t[0] == "if":
+            t = t[2] if t[1] == k else t[3]
+        return t[1]
+    dflt = value(tree, None)
+    # one entry per constant, in the order the tests are written (keys are distinct, so the order does not matter to the model's look-up)
+    cases = [(k, value(tree, k)) for k in consts]
+    return keys[0], cases, dflt
+
+
 def flatten_and(e):
     """(a and b) and c  ==  a and b and c  (same evaluation order, same value)"""
     if isinstance(e, ast.BoolOp) and isinstance(e.op, ast.And):
@@ -313,9 +509,12 @@ def elementwise(v, x, apply_name, c, funs):
     return False
 
 
-def classify_function(fn, classes, funs=None):
-    """-> (kind, data).  kinds: factory-partial, factory-list, dispatch-kw, dispatch-pos, vld-noop, vld-cross, create, other"""
+def classify_function(fn, classes, funs=None, ctabs=None, used=None):
+    """-> (kind, data).  kinds: factory-partial, factory-list, dispatch-kw, dispatch-pos, vld-noop, vld-cross, create, other
+    ctabs: the module's class tables (class_tables), used: record of the tables / builtins the reading relied on (for crosscheck)"""
     funs = funs or {}
+    ctabs = ctabs or {}
+    used = used if used is not None else {"constants": set(), "builtins": set(), "class_tables": set()}
     body = strip_doc(fn.body)
     a = fn.args
     plain = not (a.vararg or a.kwonlyargs or a.posonlyargs or a.defaults or a.kw_defaults) and not fn.decorator_list
@@ -355,14 +554,18 @@ def classify_function(fn, classes, funs=None):
                 and elementwise(b[0].value.body, b[0].value.args.args[0].arg, apply_name, c, funs)):
             return "factory-list", None
     # dispatch by lookup table:
-    #   def f(**info): [if info is None: return None]  lut = {"k": C, ...}  [kind = info[key]]  c = lut.get(info[key] | kind)
+    #   def f(**info): [if info is None: return None]  [lut = {"k": C, ...}]  [kind = info[key]]  c = lut.get(info[key] | kind)
     #   then   if c: return c(**info)  raise ...      |   if c: return c(**info) else: raise ...
     #   or     if c is None / not c: raise ...   return c(**info)
+    #   or     c = lut[info[key] | kind] ; return c(**info) (or one of the if-forms: c is a class, hence true)   |   return lut[info[key] | kind](**info)
+    # lut is the local literal or a module-level class table (class_tables: the same literal, see there).  An unknown / unhashable kind
+    # raises in every form (ValueError from the raise statement, KeyError / TypeError from the look-up): the model says "raises".
     if not a.args and a.kwarg and not (a.vararg or a.kwonlyargs or a.posonlyargs) and not fn.decorator_list:
         info = a.kwarg.arg
         b = list(body)
         if b and isinstance(b[0], ast.If) and U(b[0].test) == "%s is None" % info and len(b[0].body) == 1 and U(b[0].body[0]) == "return None" and not b[0].orelse:
             b = b[1:]      # dead for a **kwargs parameter
+        cases = lut = None
         if b and isinstance(b[0], (ast.Assign, ast.AnnAssign)) and isinstance(b[0].value, ast.Dict):
             lutname = (b[0].targets[0] if isinstance(b[0], ast.Assign) and len(b[0].targets) == 1 else getattr(b[0], "target", None))
             d = b[0].value
@@ -375,79 +578,80 @@ def classify_function(fn, classes, funs=None):
                 raise Reject("duplicate key in dispatch table of " + fn.name)
             if not is_name(lutname) or lutname.id == info:
                 raise Reject("dispatch function %s outside grammar (table name)" % fn.name)
-            b = b[1:]
-
+            lut, b = lutname.id, b[1:]
+        else:
+            tabs = sorted({n.id for n in ast.walk(fn) if isinstance(n, ast.Name) and n.id in ctabs})
+            if len(tabs) == 1:
+                lut, cases = tabs[0], list(ctabs[tabs[0]])
+                used["class_tables"].add(lut)
+        if cases is not None:
             def key_of(e):
                 if isinstance(e, ast.Subscript) and is_name(e.value, info) and isinstance(e.slice, ast.Constant) and isinstance(e.slice.value, str):
                     return e.slice.value
                 return None
             keyvar = key = None
             if (b and isinstance(b[0], ast.Assign) and len(b[0].targets) == 1 and is_name(b[0].targets[0]) and key_of(b[0].value)
-                    and b[0].targets[0].id not in (info, lutname.id)):
+                    and b[0].targets[0].id not in (info, lut)):
                 keyvar, key, b = b[0].targets[0].id, key_of(b[0].value), b[1:]
-            ok = bool(b) and isinstance(b[0], ast.Assign) and len(b[0].targets) == 1 and is_name(b[0].targets[0])
-            if ok:
-                g = b[0].value
+
+            def lookup(g):
+                """lut.get(K) -> ("get", key) | lut[K] -> ("index", key) | None;  K = info["key"], or the key variable"""
+                if (isinstance(g, ast.Call) and isinstance(g.func, ast.Attribute) and g.func.attr == "get" and is_name(g.func.value, lut)
+                        and len(g.args) == 1 and not g.keywords):
+                    how, k = "get", g.args[0]
+                elif isinstance(g, ast.Subscript) and is_name(g.value, lut) and isinstance(g.ctx, ast.Load):
+                    how, k = "index", g.slice
+                else:
+                    return None
+                if keyvar is not None and is_name(k, keyvar):
+                    return how, key
+                if keyvar is None and key_of(k):
+                    return how, key_of(k)
+                return None
+            ok = False
+            # return lut[K](**info)
+            if (len(b) == 1 and isinstance(b[0], ast.Return) and isinstance(b[0].value, ast.Call) and not b[0].value.args and len(b[0].value.keywords) == 1
+                    and b[0].value.keywords[0].arg is None and is_name(b[0].value.keywords[0].value, info)):
+                lk = lookup(b[0].value.func)
+                if lk and lk[0] == "index":
+                    ok, key = True, lk[1]
+            if not ok and b and isinstance(b[0], ast.Assign) and len(b[0].targets) == 1 and is_name(b[0].targets[0]):
                 cname = b[0].targets[0].id
-                ok = (isinstance(g, ast.Call) and isinstance(g.func, ast.Attribute) and g.func.attr == "get" and is_name(g.func.value, lutname.id)
-                      and len(g.args) == 1 and not g.keywords and cname not in (info, lutname.id, keyvar))
-                if ok:
-                    if keyvar is not None and is_name(g.args[0], keyvar):
-                        pass
-                    elif keyvar is None and key_of(g.args[0]):
-                        key = key_of(g.args[0])
-                    else:
-                        ok = False
-            if ok:
-                rest = b[1:]
+                lk = lookup(b[0].value) if cname not in (info, lut, keyvar) else None
+                if lk:
+                    key = lk[1]
+                    rest = b[1:]
 
-                def truthy(t):
-                    return is_name(t, cname) or U(t) == "%s is not None" % cname
+                    def truthy(t):
+                        return is_name(t, cname) or U(t) == "%s is not None" % cname
 
-                def falsy(t):
-                    return U(t) in ("not %s" % cname, "%s is None" % cname)
+                    def falsy(t):
+                        return U(t) in ("not %s" % cname, "%s is None" % cname)
 
-                def is_ret(sts):
-                    return len(sts) == 1 and isinstance(sts[0], ast.Return) and is_call_starstar(sts[0].value, info) == cname
+                    def is_ret(sts):
+                        return len(sts) == 1 and isinstance(sts[0], ast.Return) and is_call_starstar(sts[0].value, info) == cname
 
-                def is_raise(sts):
-                    return len(sts) == 1 and isinstance(sts[0], ast.Raise) and sts[0].exc is not None
-                ok = False
-                if rest and isinstance(rest[0], ast.If):
-                    iff, tail = rest[0], rest[1:]
-                    if truthy(iff.test) and is_ret(iff.body) and ((not iff.orelse and is_raise(tail)) or (is_raise(iff.orelse) and not tail)):
+                    def is_raise(sts):
+                        return len(sts) == 1 and isinstance(sts[0], ast.Raise) and sts[0].exc is not None
+                    if lk[0] == "index" and is_ret(rest):
                         ok = True
-                    elif falsy(iff.test) and is_raise(iff.body) and ((not iff.orelse and is_ret(tail)) or (is_ret(iff.orelse) and not tail)):
-                        ok = True
+                    elif rest and isinstance(rest[0], ast.If):
+                        iff, tail = rest[0], rest[1:]
+                        if truthy(iff.test) and is_ret(iff.body) and ((not iff.orelse and is_raise(tail)) or (is_raise(iff.orelse) and not tail)):
+                            ok = True
+                        elif falsy(iff.test) and is_raise(iff.body) and ((not iff.orelse and is_ret(tail)) or (is_ret(iff.orelse) and not tail)):
+                            ok = True
             if not ok:
                 raise Reject("dispatch function %s outside grammar" % fn.name)
             return "dispatch-kw", {"key": key, "cases": cases, "default": None}
         raise Reject("**kwargs function %s outside the dispatch grammar" % fn.name)
-    # dispatch by comparison:  def f(info): if info[key] == "k": return C(**info) ...; return D(**info)
-    if plain and not a.kwarg and len(a.args) == 1 and body and isinstance(body[-1], ast.Return) and is_call_starstar(body[-1].value, a.args[0].arg):
-        info = a.args[0].arg
-        key, cases = None, []
-        for s in body[:-1]:
-            t = s.test if isinstance(s, ast.If) else None
-            ok = (t is not None and not s.orelse and len(s.body) == 1 and isinstance(s.body[0], ast.Return) and is_call_starstar(s.body[0].value, info)
-                  and isinstance(t, ast.Compare) and len(t.ops) == 1 and isinstance(t.ops[0], ast.Eq) and isinstance(t.left, ast.Subscript)
-                  and is_name(t.left.value, info) and isinstance(t.left.slice, ast.Constant) and isinstance(t.left.slice.value, str)
-                  and isinstance(t.comparators[0], ast.Constant) and isinstance(t.comparators[0].value, str))
-            if not ok or (key is not None and key != t.left.slice.value):
-                raise Reject("dispatch function %s outside grammar: %s" % (fn.name, U(s)))
-            key = t.left.slice.value
-            cases.append((t.comparators[0].value, is_call_starstar(s.body[0].value, info)))
-        if key is None:
-            raise Reject("function %s: no dispatch key" % fn.name)
-        dflt = is_call_starstar(body[-1].value, info)
-        for _, c in cases + [(None, dflt)]:
-            if c not in classes:
-                raise Reject("dispatch target %s is not a class (in %s)" % (c, fn.name))
-        seen = []
-        for k, c in cases:          # first match wins
-            if k not in [x for x, _ in seen]:
-                seen.append((k, c))
-        return "dispatch-pos", {"key": key, "cases": seen, "default": dflt}
+    # dispatch by comparison:  def f(info): if info[key] == "k": return C(**info) ...; return D(**info)   and the let / conditional-expression
+    # forms of "decision trees" above.  Tried for a one-parameter function one of whose returns is a call with **<its parameter>.
+    if plain and not a.kwarg and len(a.args) == 1 and any(
+            isinstance(n, ast.Return) and isinstance(n.value, ast.Call) and not n.value.args and len(n.value.keywords) == 1
+            and n.value.keywords[0].arg is None and is_name(n.value.keywords[0].value, a.args[0].arg) for n in ast.walk(fn)):
+        key, cases, dflt = decision_tree(fn, a.args[0].arg, classes, funs)
+        return "dispatch-pos", {"key": key, "cases": cases, "default": dflt}
     # validators: (instance, attribute, value)
     if plain and not a.kwarg and len(a.args) == 3:
         inst, _, val = [x.arg for x in a.args]
@@ -456,7 +660,8 @@ def classify_function(fn, classes, funs=None):
                 v = body[0].value
                 if (isinstance(v, ast.Constant) or
                         (isinstance(v, ast.Call) and is_name(v.func, "isinstance") and len(v.args) == 2 and is_name(v.args[0], val)
-                         and (is_name(v.args[1]) or (isinstance(v.args[1], ast.Tuple) and all(is_name(x) for x in v.args[1].elts))))):
+                         and (is_name(v.args[1]) or (isinstance(v.args[1], ast.Tuple) and all(is_name(x) for x in v.args[1].elts))
+                              or table_values(v.args[1], ctabs, used)))):          # tuple(TABLE.values()): the tuple of the table's classes
                     return "vld-noop", None
             raise Reject("validator %s never raises but is outside the no-op grammar" % fn.name)
         # t = A if instance.S.N == "c" else B ; for e in value: if not isinstance(e.V, t): raise ValueError(...)
@@ -678,13 +883,14 @@ def translate():
         raise Reject("a class is defined twice")
     funs, create = {}, None
     consts, allb = module_constants(tree)
-    used = {"constants": set(), "builtins": set()}
+    ctabs = class_tables(tree, classes, allb)
+    used = {"constants": set(), "builtins": set(), "class_tables": set()}
     for n in tree.body:
         if isinstance(n, ast.FunctionDef):
             if n.name == "create_lsp_model":
                 create = create_fn(normalise(n, consts, allb, used), classes)
             else:
-                funs[n.name] = classify_function(n, classes, funs)
+                funs[n.name] = classify_function(n, classes, funs, ctabs, used)
         elif isinstance(n, ast.ClassDef) or isinstance(n, (ast.Import, ast.ImportFrom)):
             pass
         elif isinstance(n, ast.Expr) and isinstance(n.value, ast.Constant):
@@ -732,6 +938,7 @@ def translate():
             info["funs"][f] = dict(d, style=k)
     info["constants"] = {c: list(consts[c]) for c in sorted(used["constants"])}
     info["builtins"] = sorted(used["builtins"])
+    info["class_tables"] = {t: [list(r) for r in ctabs[t]] for t in sorted(used["class_tables"])}
     return rows, funs, create, info
 
 
@@ -745,6 +952,13 @@ def crosscheck(info):
         v = M.__dict__.get(c)
         if type(v) is not {"tuple": tuple, "list": list}[kind] or list(v) != vals or not all(type(x) is str for x in v):
             raise Reject("module constant %s is %r at run time, the source says %s %r" % (c, v, kind, vals))
+    for t, rows in info.get("class_tables", {}).items():              # the class tables that were read as literals are what the module holds
+        v = M.__dict__.get(t)
+        if type(v) is not dict or list(v) != [k for k, _ in rows] or not all(type(k) is str for k in v):
+            raise Reject("module constant %s is %r at run time, the source says a dict with the keys %r" % (t, v, [k for k, _ in rows]))
+        for k, c in rows:
+            if v[k] is not M.__dict__.get(c) or not isinstance(v[k], type) or v[k].__name__ != c or v[k].__module__ != M.__name__:
+                raise Reject("module constant %s[%r] is %r at run time, the source says the class %s of generator.model" % (t, k, v[k], c))
     import builtins
     for b in info.get("builtins", []):
         bd = M.__dict__.get("__builtins__")
